@@ -62,6 +62,8 @@ def main(argv=None):
     os.makedirs(os.path.join(VERIF, "evidence"), exist_ok=True)
     os.makedirs(os.path.join(VERIF, "replay"), exist_ok=True)
     sys.path.insert(0, VERIF)
+    if os.environ.get("VERIF_REPO"):
+        sys.path.insert(0, os.environ["VERIF_REPO"])  # replay imports the same tree the VCs came from
     from pyvc import engine, mirror
 
     try:
